@@ -142,6 +142,30 @@ func enumerate(tier string, emit func(string)) {
 			emit("u|" + op + "|" + a)
 		}
 	}
+	// isqrt around perfect squares: n = k*k-1, k*k, k*k+1, k*k+k and (k+1)^2-1 for k around every power of two up to
+	// 2^100 and around the roots of the representation boundaries (2^53, 2^63, 2^64): a root taken through a float is
+	// one too many just below a perfect square, a root through a 64-bit word overflows
+	var ks []*big.Int
+	for j := uint(1); j <= 100; j++ {
+		for d := int64(-1); d <= 1; d++ {
+			ks = append(ks, new(big.Int).Add(pow2(j), big.NewInt(d)))
+		}
+	}
+	for _, k := range []int64{67108865, 80000001, 94906265, 94906266, 94906267, 3037000499, 3037000500, 4294967295, 4294967296, 4294967297} {
+		ks = append(ks, big.NewInt(k))
+	}
+	one := big.NewInt(1)
+	for _, k := range ks {
+		if k.Sign() <= 0 {
+			continue
+		}
+		sq := new(big.Int).Mul(k, k)
+		k1 := new(big.Int).Add(k, one)
+		for _, n := range []*big.Int{new(big.Int).Sub(sq, one), sq, new(big.Int).Add(sq, one), new(big.Int).Add(sq, k),
+			new(big.Int).Sub(new(big.Int).Mul(k1, k1), one)} {
+			emit("u|isqrt|" + n.String())
+		}
+	}
 	for _, op := range binOps {
 		for ai, a := range all {
 			for bi, b := range all {
